@@ -321,6 +321,35 @@ void harness(void) { g_att = g_ok = 0; g_subs = 0; size_t n; void* e; SetCallbac
 '''
         out.append(Job('coro/SetCallbacksDynamic.unique%d' % uq, props, src, 'harness', enforce='SetCallbacksDynamic', replace=['ATTACH', 'COUNT_SUB'], loop_contracts=True, funcs=[b],
                        expect=[r'postcondition', r'invariant after step|loop_invariant_step'], meta={'fn': 'SetCallbacksDynamic'}))
+    # ---- SetCallbacksStatic: the per-handle registration lambdas (the fold expression that applies them to the pack is pinned textually) ---------------------------------------
+    b = find_body(repo, F_SE, r'void\s+SetCallbacksStatic\s*\(', 'SetCallbacksStatic')
+    from vf.cxx2c import _ws
+    for lit in ('return (... + static_cast<std::size_t>(setter(handles)));', 'event.count.fetch_sub(sizeof...(handles) - wait_count, std::memory_order_relaxed);'):
+        if len(re.findall(_ws(lit), b.text)) < 1:
+            raise ExtractionBreak('SetCallbacksStatic: pinned text is gone or changed: `%s`' % lit)
+    m_un = re.search(r'auto\s+setter\s*=\s*\[&\]\s*\(auto\s+handle\)\s*\{(.*?)\}\s*;', b.text, re.S)
+    m_sh = re.search(r'auto\s+setter\s*=\s*\[&,\s*callback_count\s*=\s*std::size_t\{\}\]\s*\(auto\s+handle\)\s*mutable\s*\{(.*?)\}\s*;\s*return', b.text, re.S)
+    if not m_un or not m_sh:
+        raise ExtractionBreak('SetCallbacksStatic: registration lambdas not found')
+    lpre = [(r'std::is_same_v<decltype\(handle\),\s*UniqueHandle>', 'IS_UNIQUE', 0), (r'handle\.SetCallback\(\s*event\.callbacks\[\s*([^\]]+?)\s*\]\s*\)', r'SetCallbackL(handle, HELPER(\1))', 0),
+            (r'handle\.SetCallback\(\s*event\s*\)', 'SetCallbackL(handle, EVENT_CALL)', 0)]
+    for nm, body, uniq in (('plain', m_un.group(1), 1), ('shared_event.unique_handle', m_sh.group(1), 1), ('shared_event.shared_handle', m_sh.group(1), 0)):
+        c = Rewriter('SetCallbacksStatic.lambda.' + nm, pre=lpre).rewrite(body)
+        src = '#include "vf.h"\n#define IS_UNIQUE %d\n' % uniq + '''#define EVENT_CALL (-1L)
+#define HELPER(k) ((long)(k))
+unsigned g_calls; long g_cb; unsigned char g_ok;
+int SetCallbackL(int handle, long cb) __CPROVER_assigns(g_calls, g_cb) __CPROVER_ensures(g_calls == OLD(g_calls) + 1 && g_cb == cb && RET == g_ok && g_ok <= 1);
+size_t callback_count;
+int lam(int handle)
+__CPROVER_requires(g_calls == 0 && callback_count < (1UL << 40))
+__CPROVER_assigns(g_calls, g_cb, callback_count)
+/* C13 (several coroutines on one SharedFuture): a unique future receives the awaiter's own callback; every SharedFuture of the pack receives ITS OWN helper node, numbered in order - a shared core links its
+   waiters intrusively through the node, so one node in two lists would cut other waiters out of a list or splice them into the wrong one; the lambda reports whether the future will still signal */
+__CPROVER_ensures(g_calls == 1 && RET == g_ok && (IS_UNIQUE ? (g_cb == EVENT_CALL && callback_count == OLD(callback_count)) : (g_cb == (long)OLD(callback_count) && callback_count == OLD(callback_count) + 1)))
+{''' + c + '''}
+void harness(void) { g_calls = 0; lam(0); VF_CANARY("end"); }
+'''
+        out.append(Job('coro/SetCallbacksStatic.lambda.' + nm, props, src, 'harness', enforce='lam', replace=['SetCallbackL'], funcs=[b], expect=[r'postcondition'], meta={'fn': 'SetCallbacksStatic lambda'}))
     # ---- PromiseType ------------------------------------------------------------------------------------------------------------------------------------
     WP = r'class\s+PromiseType\s+final'
     PT = COMMON + '''unsigned g_resumes, g_stores, g_set_results, g_loops, g_destroys; unsigned char g_store_state; unsigned long g_store_tag; Core* g_resumed; Transfer g_sr_ret; void* g_exc_tag;
